@@ -1,10 +1,221 @@
-"""Proof-tier driver (filled in as contracts land)."""
+"""Proof-tier driver: for a property, verify every function of its closure against its sidecar contract (one unit per
+(function, split binding), units in a 16-process pool), aggregate named obligations, apply the vacuity guards."""
+import itertools
+import json
+import os
+import sys
+import time
+import traceback
+
+
+def units_of(contract):
+    split = contract.get("split", {})
+    if not split:
+        return [{}]
+    keys = sorted(split)
+    return [dict(zip(keys, vals)) for vals in itertools.product(*[split[k] for k in keys])]
+
+
+def run_unit(args):
+    repo, qualname, split, canary = args
+    here = os.path.dirname(os.path.dirname(os.path.abspath(__file__)))
+    if here not in sys.path:
+        sys.path.insert(0, here)
+    from pyvc.registry import Registry
+    from pyvc.engine import Exec, Unsupported
+    t0 = time.time()
+    try:
+        reg = Registry(repo)
+        c = reg.contracts[qualname]
+        target = c.get("function", qualname)
+        fn = reg.function_ast(target)
+        if canary:
+            import pyvc.engine as E
+            E.Z3_TIMEOUT_MS, E.CVC5_TIMEOUT_S = 3000, 0        # a canary only has to FAIL to be proved
+            c = dict(c)
+            c["ensures"] = {"canary": "False"}
+            c["raises"] = {}
+        ex = Exec(qualname, fn, c, reg, split=split)
+        res = ex.run()
+        return {"unit": qualname, "split": split, "results": [r.as_dict() for r in res], "trusted": sorted(ex.trusted_used),
+                "called": sorted(getattr(ex, "called", [])), "wall": time.time() - t0, "error": None, "canary": canary}
+    except Unsupported as u:
+        return {"unit": qualname, "split": split, "results": [], "trusted": [], "called": [], "wall": time.time() - t0,
+                "error": f"unsupported: {u}", "canary": canary}
+    except Exception:
+        return {"unit": qualname, "split": split, "results": [], "trusted": [], "called": [], "wall": time.time() - t0,
+                "error": "crash: " + traceback.format_exc()[-1500:], "canary": canary}
+
+
+def verify(repo, qualnames, procs=16, canaries=True):
+    from pyvc.registry import Registry
+    reg = Registry(repo)
+    jobs = []
+    for q in qualnames:
+        c = reg.contracts[q]
+        us = units_of(c)
+        for u in us:
+            jobs.append((repo, q, u, False))
+        if canaries:
+            jobs.append((repo, q, us[0], True))
+    import multiprocessing
+    ctx = multiprocessing.get_context("fork")
+    with ctx.Pool(min(procs, max(1, len(jobs)))) as pool:
+        outs = pool.map(run_unit, jobs, chunksize=1)
+    return reg, outs
 
 
 def run_property(pid, P, tier, repo, seed):
-    raise NotImplementedError
+    t0 = time.time()
+    targets = P["proof"]
+    reg, outs = verify(repo, targets, procs=int(os.environ.get("VERIF_PROCS", "16")))
+    obligations, refuted, undecided, errors = [], [], [], []
+    by_backend, trusted, solver_s = {}, set(), 0.0
+    canary_ok = canary_total = 0
+    demoted = set(P.get("demoted_obligations", []))
+    unbound = {o["unit"] for o in outs if o["error"] and o["error"].startswith("unsupported")}
+    seen_unbound = set()
+    for o in outs:
+        if o["canary"]:
+            if o["unit"] in unbound:
+                continue
+            canary_total += 1
+            # the canary ('ensures False') must NOT be provable on at least one returning path
+            if o["error"] is None and any(r["status"] != "discharged" and ":ensures:canary" in r["name"] for r in o["results"]):
+                canary_ok += 1
+            elif o["error"] is None and not any(":ensures:canary" in r["name"] for r in o["results"]):
+                canary_ok += 1 if any(":raise" in r["name"] for r in o["results"]) else 0
+            continue
+        if o["error"]:
+            if o["error"].startswith("unsupported"):
+                if o["unit"] in seen_unbound:
+                    continue
+                seen_unbound.add(o["unit"])
+                undecided.append({"obligation": o["unit"] + ":<binding>", "reason": o["error"], "binding": True})
+            else:
+                errors.append(f"{o['unit']}: {o['error']}")
+            continue
+        trusted |= set(o["trusted"])
+        if not o["results"]:
+            errors.append(f"{o['unit']} {o['split']}: zero obligations generated (vacuity guard)")
+        for r in o["results"]:
+            if r["name"] in demoted:
+                continue
+            obligations.append(r)
+            solver_s += r["seconds"]
+            if r["status"] == "discharged":
+                by_backend[r["backend"]] = by_backend.get(r["backend"], 0) + 1
+            else:
+                refuted.append({"obligation": r["name"], "reason": r["detail"], "line": r["line"], "status": r["status"],
+                                "function": o["unit"], "split": o["split"], "replayed": False})
+    # a failed obligation: look for a REAL failing input by running the same contract concretely on the real function
+    searched = {}
+    for r in refuted:
+        key = (r["function"], json.dumps(r["split"], sort_keys=True))
+        if key not in searched:
+            searched[key] = native_search(repo, reg.contracts[r["function"]], r["split"])
+        found = searched[key]
+        r["search"] = {"inputs_tried": found.get("tried"), "error": found.get("error")}
+        if found.get("failing"):
+            r["replayed"] = True
+            r["input"] = found["failing"]["input"]
+            r["observed"] = found["failing"]["observed"]
+            r["violated_clause"] = found["failing"]["clause"]
+            r["contract"] = r["function"]
+    if canary_total and canary_ok != canary_total:
+        errors.append(f"vacuity guard: {canary_total - canary_ok} of {canary_total} 'ensures False' canaries were provable (contradictory precondition or engine unsoundness)")
+    disc = sum(1 for r in obligations if r["status"] == "discharged")
+    slow = sorted(obligations, key=lambda r: -r["seconds"])[:5]
+    fun_infos = []
+    for q in targets:
+        c = reg.contracts[q]
+        try:
+            info = reg.source_info(c.get("function", q))
+        except Exception as e:  # noqa
+            info = {"function": q, "error": str(e)}
+        info["contract"] = q
+        info["obligations"] = sum(1 for r in obligations if r["name"].startswith(q + ":") or r["name"].startswith(q + "["))
+        fun_infos.append(info)
+    return {
+        "obligations": len(obligations), "discharged": disc, "refuted": refuted,
+        "undecided": [u for u in undecided if not u.get("binding")], "binding_failures": [u for u in undecided if u.get("binding")],
+        "errors": errors,
+        "functions": fun_infos, "by_backend": by_backend, "solver_seconds": round(solver_s, 2),
+        "slowest": [{"name": r["name"], "seconds": r["seconds"], "backend": r["backend"]} for r in slow],
+        "checker_cmd": f"./check {pid} --tier {tier}  (pyvc: ast of $REPO/dsw -> VCs -> z3 {z3_version()} [auto_config=false, mbqi=false, {os.environ.get('PYVC_Z3_TIMEOUT_MS', '20000')} ms], cvc5 for z3's unknowns)",
+        "trusted_base": sorted(trusted), "vacuity": {"canaries": canary_total, "canaries_refuted_as_required": canary_ok},
+        "samples": [r["name"] for r in obligations[:3]] + [r["name"] for r in obligations[-3:]],
+        "not_discharged": [r["name"] for r in obligations if r["status"] != "discharged"],
+        "wall_s": round(time.time() - t0, 2),
+    }
+
+
+def z3_version():
+    import z3
+    return z3.get_version_string()
+
+
+def native_search(repo, c, split, one_input=None):
+    import subprocess
+    here = os.path.dirname(os.path.dirname(os.path.abspath(__file__)))
+    req = {"module": c["module"], "contract": c["name"], "split": split}
+    if one_input is not None:
+        req["input"] = one_input
+    env = dict(os.environ)
+    env["PYTHONPATH"] = repo + os.pathsep + here
+    env["PYTHONDONTWRITEBYTECODE"] = "1"
+    try:
+        p = subprocess.run([os.environ.get("VERIF_NATIVE_PY", "/venv/bin/python"), "-m", "pyvc.concrete", json.dumps(req)],
+                           cwd=here, env=env, capture_output=True, text=True, timeout=600)
+        if p.returncode != 0:
+            return {"error": (p.stderr or p.stdout)[-500:]}
+        return json.loads(p.stdout.strip().split("\n")[-1])
+    except Exception as e:  # noqa
+        return {"error": str(e)[:300]}
 
 
 def replay(pid, rec, repo):
-    print("proof replay records carry the failed obligation and the solver output; see the file")
-    return 1
+    print("failed obligation:", rec.get("obligation"))
+    print("solver output:", (rec.get("reason") or "")[:400])
+    if rec.get("input") is None:
+        print("no concrete input is attached to this record (no-failing-input-found); re-run ./check", pid)
+        return 1
+    from pyvc.registry import Registry
+    reg = Registry(repo)
+    found = native_search(repo, reg.contracts[rec["contract"]], rec.get("split", {}), one_input=rec["input"])
+    if found.get("failing"):
+        print("replay on the real code:", rec["input"], "->", found["failing"]["observed"], "; violates", found["failing"]["clause"])
+        print(f"VIOLATION property={pid} replay=<this file>")
+        return 1
+    print("replay: the contract holds for this input on the current tree", found.get("error", ""))
+    return 0
+
+
+def main():
+    """developer entry: python3-vt -m pyvc.runner dsw.operation.calculus_division [...]"""
+    repo = os.environ.get("REPO", "/repo")
+    names = sys.argv[1:]
+    t0 = time.time()
+    reg, outs = verify(repo, names)
+    tot = bad = 0
+    for o in outs:
+        if o["error"]:
+            print("ERROR", o["unit"], o["split"], "canary" if o["canary"] else "", o["error"])
+            continue
+        if o["canary"]:
+            nd = [r for r in o["results"] if r["status"] != "discharged"]
+            print(f"canary {o['unit']}: {len(nd)} obligations not provable (must be > 0)")
+            continue
+        for r in o["results"]:
+            tot += 1
+            if r["status"] != "discharged":
+                bad += 1
+                print("  NOT DISCHARGED", r["name"], r["status"], r["seconds"], "line", r["line"], r["detail"][:300])
+            elif r["seconds"] > 2:
+                print("  slow", r["name"], r["seconds"], r["backend"])
+        print(f"unit {o['unit']} {o['split']}: {len(o['results'])} obligations, wall {o['wall']:.1f}s")
+    print(f"TOTAL obligations {tot}, not discharged {bad}, wall {time.time() - t0:.1f}s")
+
+
+if __name__ == "__main__":
+    main()
